@@ -73,12 +73,33 @@ func (r *viewRecorder) emit(ev viewEvent) {
 	r.mu.Unlock()
 }
 
+// openViewEnv opens the shard with background reorganisations on or off as the case drew it. "Off" is set with
+// the store's enable flags: engx.Open(Background=false) goes through shard.DisableCompAndMerge, which closes the
+// store's compaction scheduler for good, so that no LevelCompact / FullCompact of the run would do anything
+// (finding F-C03-2).
+func openViewEnv(dir string, o engx.Options) (*engx.Env, error) {
+	bg := o.Background
+	o.Background = true
+	e, err := engx.Open(dir, o)
+	if err != nil {
+		return nil, err
+	}
+	if !bg {
+		if st, ok := e.Shard().GetTableStore().(*immutable.MmsTables); ok {
+			st.CompactionDisable()
+			st.MergeDisable()
+			st.Wait()
+		}
+	}
+	return e, nil
+}
+
 func runViewCase(c *viewCase, root string) (res viewResult) {
 	res = viewResult{ID: c.ID, OK: true}
 	rng := rand.New(rand.NewSource(c.Seed*104729 + int64(c.ID)))
 	dir := filepath.Join(root, fmt.Sprintf("v%d", c.ID))
 	defer os.RemoveAll(dir)
-	e, err := engx.Open(dir, engx.Options{WalParts: 1 + rng.Intn(3), MaxRowsPerSegment: []int{0, 3, 5}[rng.Intn(3)], Background: rng.Intn(2) == 0})
+	e, err := openViewEnv(dir, engx.Options{WalParts: 1 + rng.Intn(3), MaxRowsPerSegment: []int{0, 3, 5}[rng.Intn(3)], Background: rng.Intn(2) == 0})
 	if err != nil {
 		res.Infra = "open: " + err.Error()
 		return
@@ -115,7 +136,7 @@ func runViewCase(c *viewCase, root string) (res viewResult) {
 			res.Infra = "close: " + err.Error()
 			return
 		}
-		e, err = engx.Open(dir, engx.Options{WalParts: 1 + rng.Intn(3), MaxRowsPerSegment: []int{0, 3, 5}[rng.Intn(3)], Background: rng.Intn(2) == 0})
+		e, err = openViewEnv(dir, engx.Options{WalParts: 1 + rng.Intn(3), MaxRowsPerSegment: []int{0, 3, 5}[rng.Intn(3)], Background: rng.Intn(2) == 0})
 		if err != nil {
 			res.Infra = "reopen: " + err.Error()
 			return
